@@ -15,10 +15,10 @@
     `try/catch` wrappers (`read_duration`, `read_parameter`, `expect_parameter`) are matches on it.
   * exceptions that are NOT `InputError` and are not caught inside `parse_line` escape as
     `Err.foreign`; undefined-behaviour sites are `Err.foreign "ub:…"`.  After the repairs
-    (`*` without a number: fix 57aa26b; `~` not followed by a note letter: fix 3eaf999 — before
+    (`*` without a number: fix df8190c; `~` not followed by a note letter: fix 2c4d0da — before
     them `std::invalid_argument` escaped, `get_key_signature` shifted by a negative amount and
     `strtol` was started beyond the terminating NUL; numbers near `INT_MAX`/`INT_MIN`: fixes
-    a16b488, a22a11c — before them `duration += dot`, `expect_parameter() - 1` (`o`),
+    299434d, bc95701 — before them `duration += dot`, `expect_parameter() - 1` (`o`),
     `-read_parameter(1)` (`(`), `note + octave*12` and `octave ± 1` were signed `int` overflow)
     no undefined-behaviour site of the reader is reachable from text any more: the arithmetic
     is done in `long long` / `unsigned` and narrowed (list below); `Track.applyOp` still reports
@@ -168,7 +168,7 @@ def countDots : List Nat → Nat
   | c :: cs => if c = 46 then countDots cs + 1 else 0
 
 /-- the `while(1)` loop of `read_duration` over the `k` dots that follow; `duration` and `dot`
-are `long long` (fix a16b488): `duration += dot` stays below twice the parsed `int` -/
+are `long long` (fix 299434d): `duration += dot` stays below twice the parsed `int` -/
 def dotsLoop : Nat → Int → Int → P Int
   | 0, dur, _ => do
     let _ ← getC
@@ -534,7 +534,7 @@ def parseTag : P Unit := do
     modifyS fun s => { s with song := s.song.addTag .addTagList s.tagKey line }
 
 /-- `MML_Input::get_track_id()`: −1 = no match; a `*` without a number is an input error
-(since fix 57aa26b; before, `std::invalid_argument` escaped from `parse_line`: D12) -/
+(since fix df8190c; before, `std::invalid_argument` escaped from `parse_line`: D12) -/
 def getTrackId : P Int := do
   let c ← getC
   if 65 ≤ c && c ≤ 90 then pure (c - 65)
